@@ -3,6 +3,7 @@ package props
 import (
 	"bufio"
 	"bytes"
+	"context"
 	"fmt"
 	"os"
 	"os/exec"
@@ -12,6 +13,7 @@ import (
 	"strings"
 	"syscall"
 	"testing"
+	"time"
 
 	evalfilter "github.com/skx/evalfilter/v2"
 	"pgregory.net/rapid"
@@ -117,6 +119,11 @@ func TestC10Worker(t *testing.T) {
 		for k, v := range vars {
 			e.SetVariable(k, eng.ToObject(v))
 		}
+		// generated programs may be slow (doubling strings in recursion): the
+		// audit is about system calls, two seconds of any script are enough
+		ctx, cancel := context.WithTimeout(context.Background(), 2*time.Second)
+		defer cancel()
+		e.SetContext(ctx)
 		if e.Prepare() != nil {
 			return
 		}
